@@ -81,6 +81,7 @@ type Options struct {
 	Verbose   bool
 	Tier      string
 	DumpDir   string
+	RefuteQF  bool // look for counterexamples of undecided obligations on the quantifier-free part of the context
 }
 
 func (e *Engine) wantClass(c string) bool {
@@ -461,6 +462,7 @@ func (c *fnCtx) applyIfaceContract(in ssa.Instruction, ct *Contract, cc *ssa.Cal
 		c.em.assert("(=> " + c.reach[c.curB] + " " + f + ")")
 	}
 	c.eng.noteContractUse(ct.Key)
+	c.eng.noteContractUse("ASSUMED " + ct.Key + " (" + ct.Header + ")")
 	return r
 }
 
